@@ -156,6 +156,26 @@ pub fn open_err(e: &Error) -> Value {
     json!({"items": [], "openErr": j["err"], "err": "", "code": j["code"], "nonePastEnd": true})
 }
 
+/// the collecting conveniences ShapeReader::read() / read_as::<S>() (they consume the reader)
+pub fn read_collect_route(c: &Conc, shp: &[u8], shx: Option<&[u8]>, t: i32, generic: bool) -> Value {
+    let r = guarded(|| {
+        let rd = match shx {
+            Some(x) => ShapeReader::with_shx(Cursor::new(shp.to_vec()), Cursor::new(x.to_vec())),
+            None => ShapeReader::new(Cursor::new(shp.to_vec())),
+        }?;
+        if generic || t == 0 {
+            rd.read()
+        } else {
+            for_type!(t, S, { rd.read_as::<S>().map(|v| v.into_iter().map(Shape::from).collect()) })
+        }
+    });
+    match r {
+        Ok(Ok(items)) => res_json(c, &items, None, None),
+        Ok(Err(e)) => res_json(c, &[], Some(err_json(&e)), None),
+        Err(p) => json!({"items": [], "openErr": "", "err": "panic", "code": 0, "msg": p, "nonePastEnd": true}),
+    }
+}
+
 pub fn read_cursor_route(c: &Conc, shp: &[u8], shx: Option<&[u8]>, t: i32, generic: bool, random: bool, n: usize) -> Value {
     let opened = guarded(|| match shx {
         Some(x) => ShapeReader::with_shx(Cursor::new(shp.to_vec()), Cursor::new(x.to_vec())),
@@ -271,6 +291,10 @@ pub fn run_case(tr: &mut Trace, c: &Conc, prop: &str, t: i32, ashapes: &[AShape]
                     tr.emit(json!({"ev": "readback", "generic": generic, "random": random, "withShx": with_shx,
                                    "via": "cursor", "res": r}));
                 }
+            }
+            for &with_shx in &[true, false] {
+                let r = read_collect_route(c, &shp, if with_shx { Some(&shx) } else { None }, t, generic);
+                tr.emit(json!({"ev": "readback", "generic": generic, "random": false, "withShx": with_shx, "via": "collect", "res": r}));
             }
         }
         if wrote_path.is_ok() {
@@ -419,6 +443,17 @@ pub fn run(a: &Args) {
             if prop == "C18" || prop == "all" {
                 big_size_events(&mut tr, &c, &mut r, t, a.num("bigsizes", 3) as usize);
                 id += a.num("bigsizes", 3) as usize;
+            }
+            if ch == 0 && (prop == "C01" || prop == "C02" || prop == "all") && family(t) != "point" {
+                // beyond the usual counts: more than 255 parts, more than 1 000 points
+                let g = GenCfg { max_parts: 1, max_pts: 1, special_pct: 5, xy_span: 8 };
+                let many_parts = match family(t) {
+                    "multipoint" => AShape { t, parts: vec![(0..1100).map(|_| gen_point(&mut r, t, &g)).collect()], kinds: vec![], bbox: [0; 8] },
+                    _ => AShape { t, parts: (0..300).map(|_| (0..4).map(|_| gen_point(&mut r, t, &g)).collect()).collect(),
+                                  kinds: (0..300).map(|i| if t == 31 { (i % 6) as i32 } else { (i % 2) as i32 }).collect::<Vec<_>>().into_iter().filter(|_| t == 31 || family(t) == "polygon").collect(), bbox: [0; 8] },
+                };
+                id += 1;
+                run_case(&mut tr, &c, &prop, t, &[many_parts], &tmp.0, id);
             }
             for _ in 0..large {
                 let n = 1 + r.below(3);
